@@ -3,9 +3,11 @@
 From Coq Require Import Extraction ExtrOcamlBasic.
 From TV Require Import Base.Result Packet.Checksum Core.Types Core.TracerState Core.Strategy Core.Flows Core.State.
 From Coq Require Import QArith.
+From TV Require Import Conc.Tracer.
 Extraction Language OCaml.
 Extraction "model.ml" fault error result
   checksum ip_checksum ipv4_header_checksum icmp_ipv4_checksum icmp_ipv6_checksum
   udp_ipv4_checksum tcp_ipv4_checksum udp_ipv6_checksum paris_udp
   run ts_new next_probe reissue_probe fail_probe complete_probe advance_round in_round round_has_capacity probes strategy_resp
-  state_new update_from_round state_flow fs_hops_view fs_target_hop fs_is_target fs_is_in_round Qred Qdiv inject_Z.
+  state_new update_from_round state_flow fs_hops_view fs_target_hop fs_is_target fs_is_in_round Qred Qdiv inject_Z
+  tstep tinit texec obs rds cls base hd cell.
